@@ -704,7 +704,7 @@ def _body_paths(w, loop, pre, acc, lv):
     return outs
 
 
-def rule_C(ctx):
+def rule_C(ctx, rid='C03.C'):
     """C03.C comparison operators on all field-wise orderings"""
     c = ctx.prog.cls(CLS)
     methods = {}
@@ -771,7 +771,7 @@ def rule_C(ctx):
                     if bool(got) != want[name] and len(bad[name]) < 3:
                         bad[name].append({'self': x, 'other': y, 'returned': bool(got), 'order of the instants says': want[name]})
     for name in CMP:
-        ctx.check(not bad[name], 'C03.C', c.methods[name],
+        ctx.check(not bad[name], rid, c.methods[name],
                   'ObsTime.%s agrees with chronological (most-significant-field-first) order on all %d field-wise '
                   'orderings of two timestamps' % (name, total),
                   witness={'counter-examples (field ranks)': bad[name]}, node=c.methods[name].node, key=name)
